@@ -135,8 +135,13 @@ def classify_all(chk, cases, results, counts, tobs, tmine, rng):
             chk.classify(sig, {"case": c, "step": i, "crash": crash, "regime": hist[i]["regime"]})
         for i in judged_steps:
             if i >= len(r["steps"]):
-                if not crash:
-                    chk.classify("%s:%s:not_executed" % (hist[i]["a"], hist[i]["regime"]), {"case": c, "result": r, "step": i})
+                # the replay stops after a crash and after a reopen that failed (there is no index any more): those are
+                # reported on their own step; the steps behind them are abandoned, not judged
+                prev = r["steps"][-1] if r["steps"] else None
+                explained = crash or (i > 0 and hist[len(r["steps"]) - 1]["a"] == "reopen" and prev != "ok")
+                if not explained:
+                    chk.classify(sig_of(hist[i]["a"], hist[i]["regime"], "not_executed"), {"case": c, "result": r, "step": i})
+                counts["abandoned_steps"] = counts.get("abandoned_steps", 0) + len(hist) - i
                 break
             s = r["steps"][i]
             counts["actions"] += 1
@@ -300,7 +305,7 @@ def run(chk):
                    walks=len(w1) + len(w2), sql_histories=len([c for c in cases if c["mode"] == "sql"]),
                    searches_judged=counts["searches"], actions_judged=counts["actions"], observations_rejudged_by_tlc=judged,
                    last_actions=acts, regimes_visited=regimes, divergences_by_signature=counts["sig"],
-                   process_crashes=counts.get("crashes", 0), sq8_cases=counts["sq8_cases"], sq8_components=counts["sq8_components"], sq8_worst_error_in_half_steps=counts["sq8_worst_error_in_half_steps"],
+                   process_crashes=counts.get("crashes", 0), abandoned_steps=counts.get("abandoned_steps", 0), sq8_cases=counts["sq8_cases"], sq8_components=counts["sq8_components"], sq8_worst_error_in_half_steps=counts["sq8_worst_error_in_half_steps"],
                    model_actions_covered={a: t for a, (d, t) in mc["coverage"].items()}, exhaustive=thorough,
                    sql_layer_has_hnsw_file=hnsw_file,
                    samples=[{"history": [(e["a"], e["id"], e["v"], e["lvl"]) for e in c["hist"]], "regime": c["hist"][-1]["regime"], "live": c["hist"][-1]["live"]}
